@@ -226,7 +226,9 @@ Print Assumptions c04_decoded_ops_are_api.
    with the generated g_swap (slice.go passes swap[T]).  Every generated function equals the hand-written model of
    Model/Heap.v on which the theorems above rest — layer 2, "the loops as the Go code runs them" (gdown / gup_go /
    gfix / gbuild over lessL / swapL: int indices, every access checked, fuel), and layer 3, the Slice operations —
-   for EVERY comparison function (no order axioms), every slice, every index.
+   for EVERY comparison function (no order axioms), every slice, every index (up and fix: every index >= 0 — the sift-up
+   loop is the same function for `if parent == j { break }` and for `for j > 0`, which independent refactorings prefer,
+   exactly on the non-negative indices, the only ones a caller passes; the Slice methods need no premise).
    [cv f]: Ok x -> Ret (f x), Panic -> Panic, NoFuel -> NoFuel; [with_values s v]: s with Values := v; [st_opt]: Go
    returns (value, ok), the model an option.  Loops: equal to the model's loop for EVERY fuel (build: as soon as the
    fuel covers its len/2 rounds, the model's outer loop being structural); and with any fuel >= the model's own
@@ -239,8 +241,8 @@ Local Open Scope Z_scope.
 Theorem c04_code_is_model :
   (forall s i j, g_swap s i j = cv id (swapL Z s i j)) /\
   (forall cmp fuel s i0 n, g_down fuel s cmp g_swap i0 n = cv id (gdown (list Z) (lessL Z cmp) (swapL Z) fuel s i0 n)) /\
-  (forall cmp fuel s j, g_up fuel s cmp g_swap j = cv id (gup_go (list Z) (lessL Z cmp) (swapL Z) fuel s j)) /\
-  (forall cmp fuel s i n, g_fix fuel s cmp g_swap i n = cv id (gfix (list Z) (lessL Z cmp) (swapL Z) fuel s i n)) /\
+  (forall cmp fuel s j, 0 <= j -> g_up fuel s cmp g_swap j = cv id (gup_go (list Z) (lessL Z cmp) (swapL Z) fuel s j)) /\
+  (forall cmp fuel s i n, 0 <= i -> g_fix fuel s cmp g_swap i n = cv id (gfix (list Z) (lessL Z cmp) (swapL Z) fuel s i n)) /\
   (forall cmp fuel s, (Z.to_nat (Zlen s / 2) < fuel)%nat ->
      g_build fuel s cmp g_swap = cv id (gbuild (list Z) (lessL Z cmp) (swapL Z) fuel s (Zlen s))) /\
   (forall cmp fuel s i n, (n <= length s)%nat -> (fuelL Z s <= fuel)%nat ->
